@@ -1,0 +1,135 @@
+//go:build verif
+
+// Contracts for package engine (comment-only; read by /verif/plvc).
+
+package engine
+
+//@ default nonnil *searchPath
+//@ default nonnil *param
+//@ default nonnil *runtime.Script
+
+// C09: the on-path bookkeeping of the use() linker.
+// nodeMap is exactly the set of names on path, and path has no duplicates.
+//@ spec wfPath(p *searchPath) bool = p.nodeMap != nil
+//@ | && (forall n string :: dom(p.nodeMap, n) <==> (exists i :: 0 <= i && i < len(p.path) && p.path[i] == n))
+//@ | && (forall i, j :: 0 <= i && i < j && j < len(p.path) ==> p.path[i] != p.path[j])
+
+//@ extern strings.Join
+//@ pure
+//@ extern fmt.Errorf
+//@ pure
+//@ ensures result != nil && !typeis(result, *errchain.PlError)
+//@ extern fmt.Sprintf
+//@ pure
+
+//@ func (*searchPath).String
+//@ props C09
+//@ pure
+
+//@ func newSearchPath
+//@ props C09
+//@ modifies nothing
+//@ ensures result != nil && fresh(result) && wfPath(result) && len(result.path) == 0 && fresh(result.nodeMap) && fresh(result.path)
+
+// Push: a name already on the path is an error and leaves the path as it was; otherwise the
+// name is appended.
+//@ func (*searchPath).Push
+//@ props C09
+//@ requires wfPath(p)
+//@ modifies p.path, elems(p.path), mapof(p.nodeMap)
+//@ ensures wfPath(p)
+//@ ensures old(dom(p.nodeMap, nodeName)) <==> result != nil
+//@ ensures result != nil ==> len(p.path) == old(len(p.path))
+//@ ensures result == nil ==> len(p.path) == old(len(p.path)) + 1 && p.path[len(p.path)-1] == nodeName
+//@ ensures forall i :: 0 <= i && i < old(len(p.path)) ==> p.path[i] == old(p.path[i])
+//@ ensures result == nil ==> (forall n string :: dom(p.nodeMap, n) == (old(dom(p.nodeMap, n)) || n == nodeName))
+//@ ensures result != nil ==> (forall n string :: dom(p.nodeMap, n) == old(dom(p.nodeMap, n)))
+//@ ensures base(p.path) == old(base(p.path)) || fresh(p.path)
+
+// Pop removes the last name.
+//@ func (*searchPath).Pop
+//@ props C09
+//@ requires wfPath(p)
+//@ modifies p.path, mapof(p.nodeMap)
+//@ ensures wfPath(p)
+//@ ensures old(len(p.path)) == 0 ==> len(p.path) == 0
+//@ ensures old(len(p.path)) > 0 ==> len(p.path) == old(len(p.path)) - 1
+//@ ensures forall i :: 0 <= i && i < len(p.path) ==> p.path[i] == old(p.path[i])
+//@ ensures old(len(p.path)) > 0 ==> (forall n string :: dom(p.nodeMap, n) == (old(dom(p.nodeMap, n)) && n != old(p.path[len(p.path)-1])))
+//@ ensures base(p.path) == old(base(p.path))
+
+// a well-formed use("name") call site and the name it refers to
+//@ spec refOK(e *ast.CallExpr) bool = e != nil && e.Name == "use" && len(e.Param) == 1 && e.Param[0] != nil && e.Param[0].NodeType == ast.TypeStringLiteral
+//@ spec refName(e *ast.CallExpr) string = e.Param[0].elem.(*ast.StringLiteral).Val
+
+// the call site is bound to the script of the name it mentions
+//@ spec bound(e *ast.CallExpr, all map[string]*runtime.Script) bool = refOK(e) && dom(all, refName(e)) && typeis(e.PrivateData, *runtime.Script) && e.PrivateData.(*runtime.Script) == all[refName(e)]
+
+//@ func getParamRefScript
+//@ props C09
+//@ pure
+//@ requires expr != nil ==> (forall i :: 0 <= i && i < len(expr.Param) ==> expr.Param[i] != nil)
+//@ ensures result1 == nil <==> refOK(expr)
+//@ ensures result1 == nil ==> result0 == refName(expr)
+//@ ensures !typeis(result1, *errchain.PlError)
+
+// every name resolved so far is a script of the set, and everything it uses is resolved too
+//@ spec resolvedOK(p *param) bool = p.retMap != nil && p.retMap != p.allNg
+//@ | && (forall n string :: dom(p.retMap, n) ==> dom(p.allNg, n) && p.retMap[n] == p.allNg[n])
+//@ | && (forall n string :: forall i :: dom(p.retMap, n) && 0 <= i && i < len(p.allNg[n].CallRef) ==> refOK(p.allNg[n].CallRef[i]) && dom(p.retMap, refName(p.allNg[n].CallRef[i])))
+//@ | && (forall n string :: forall i :: dom(p.retMap, n) && 0 <= i && i < len(p.allNg[n].CallRef) ==> bound(p.allNg[n].CallRef[i], p.allNg))
+
+//@ spec wfScripts(p *param) bool = (forall n string :: dom(p.allNg, n) ==> p.allNg[n] != nil)
+//@ | && (forall n string :: forall i :: dom(p.allNg, n) && 0 <= i && i < len(p.allNg[n].CallRef) ==> p.allNg[n].CallRef[i] != nil)
+//@ | && (forall n string :: dom(p.allErrNg, n) ==> p.allErrNg[n] != nil && (typeis(p.allErrNg[n], *errchain.PlError) ==> p.allErrNg[n].(*errchain.PlError) != nil))
+//@ | && (forall n string :: forall i :: dom(p.allNg, n) && 0 <= i && i < len(p.allNg[n].CallRef) && p.allNg[n].CallRef[i] != nil ==> (forall j :: 0 <= j && j < len(p.allNg[n].CallRef[i].Param) ==> p.allNg[n].CallRef[i].Param[j] != nil))
+
+// dfs: on success the path is restored (balanced), the script and everything it uses is
+// recorded as resolved; names on the path are never recorded; every use() call site written
+// is bound to the script of that name; pre-existing errors are not modified (a copy is extended).
+//@ func dfs
+//@ props C09
+//@ exits separate
+//@ requires wfPath(sPath) && resolvedOK(p) && wfScripts(p)
+//@ requires dom(p.allNg, name) && p.allNg[name] == procc
+//@ requires forall n string :: dom(sPath.nodeMap, n) ==> !dom(p.retMap, n)
+//@ modifies sPath.path, elems(sPath.path), mapof(sPath.nodeMap), mapof(p.retMap), p.namePos, ast.CallExpr.PrivateData
+//@ ensures resolvedOK(p)
+//@ ensures forall n string :: old(dom(p.retMap, n)) ==> dom(p.retMap, n)
+//@ ensures forall n string :: old(dom(sPath.nodeMap, n)) ==> !dom(p.retMap, n)
+//@ ensures result == nil ==> (forall n string :: dom(sPath.nodeMap, n) == old(dom(sPath.nodeMap, n)))
+//@ ensures typeis(result, *errchain.PlError) ==> result.(*errchain.PlError) != nil
+//@ ensures base(sPath.path) == old(base(sPath.path)) || fresh(sPath.path)
+//@ ensures result == nil ==> wfPath(sPath) && len(sPath.path) == old(len(sPath.path)) && (forall i :: 0 <= i && i < len(sPath.path) ==> sPath.path[i] == old(sPath.path[i]))
+//@ ensures result == nil <==> dom(p.retMap, name)
+//@ ensures forall e *ast.CallExpr :: e.PrivateData == old(e.PrivateData) || bound(e, p.allNg)
+//@ loop 1
+//@ invariant wfPath(sPath) && resolvedOK(p) && len(sPath.path) == old(len(sPath.path)) + 1 && sPath.path[len(sPath.path)-1] == name
+//@ invariant forall i :: 0 <= i && i < old(len(sPath.path)) ==> sPath.path[i] == old(sPath.path[i])
+//@ invariant forall n string :: old(dom(p.retMap, n)) ==> dom(p.retMap, n)
+//@ invariant forall n string :: dom(sPath.nodeMap, n) ==> !dom(p.retMap, n)
+//@ invariant forall n string :: dom(sPath.nodeMap, n) == (old(dom(sPath.nodeMap, n)) || n == name)
+//@ invariant base(sPath.path) == old(base(sPath.path)) || fresh(sPath.path)
+//@ invariant forall k :: 0 <= k && k <= rangeindex ==> refOK(procc.CallRef[k]) && dom(p.retMap, refName(procc.CallRef[k]))
+//@ invariant forall k :: 0 <= k && k <= rangeindex ==> bound(procc.CallRef[k], p.allNg)
+//@ invariant forall e *ast.CallExpr :: e.PrivateData == old(e.PrivateData) || bound(e, p.allNg)
+
+// the driver: every script of the set gets a verdict, the accepted set is closed
+// under use(), and accepted scripts are the scripts of the set
+//@ func EngineCallRefLinkAndCheck
+//@ props C09
+//@ requires forall n string :: dom(allNg, n) ==> allNg[n] != nil
+//@ requires forall n string :: forall i :: dom(allNg, n) && 0 <= i && i < len(allNg[n].CallRef) ==> allNg[n].CallRef[i] != nil
+//@ requires forall n string :: dom(allErrNg, n) ==> allErrNg[n] != nil && (typeis(allErrNg[n], *errchain.PlError) ==> allErrNg[n].(*errchain.PlError) != nil)
+//@ requires forall n string :: forall i :: dom(allNg, n) && 0 <= i && i < len(allNg[n].CallRef) && allNg[n].CallRef[i] != nil ==> (forall j :: 0 <= j && j < len(allNg[n].CallRef[i].Param) ==> allNg[n].CallRef[i].Param[j] != nil)
+//@ modifies ast.CallExpr.PrivateData
+//@ ensures forall n string :: dom(allNg, n) ==> dom(result0, n) || dom(result1, n)
+//@ ensures forall n string :: dom(result0, n) ==> dom(allNg, n) && result0[n] == allNg[n]
+//@ ensures forall n string :: forall i :: dom(result0, n) && 0 <= i && i < len(allNg[n].CallRef) ==> refOK(allNg[n].CallRef[i]) && dom(result0, refName(allNg[n].CallRef[i]))
+//@ ensures forall n string :: forall i :: dom(result0, n) && 0 <= i && i < len(allNg[n].CallRef) ==> bound(allNg[n].CallRef[i], allNg)
+//@ loop 1
+//@ invariant retMap != nil && retErrMap != nil && fresh(retMap) && fresh(retErrMap) && retMap != allNg
+//@ invariant forall n string :: dom(retMap, n) ==> dom(allNg, n) && retMap[n] == allNg[n]
+//@ invariant forall n string :: forall i :: dom(retMap, n) && 0 <= i && i < len(allNg[n].CallRef) ==> refOK(allNg[n].CallRef[i]) && dom(retMap, refName(allNg[n].CallRef[i]))
+//@ invariant forall n string :: forall i :: dom(retMap, n) && 0 <= i && i < len(allNg[n].CallRef) ==> bound(allNg[n].CallRef[i], allNg)
+//@ invariant forall n string :: iterseen(n) ==> dom(retMap, n) || dom(retErrMap, n)
